@@ -6,6 +6,7 @@ CONSTANTS
   RKeys = {"k1"}
   RPass = {"p1"}
   MaxHist = 0
+  BigResp = FALSE
   MaxConns = 2
   MaxCItems = 2
   MaxLines = 0
